@@ -7,6 +7,8 @@ CONSTANT Origs = {}
 CONSTANT Pads = {}
 CONSTANT SzAs = {}
 CONSTANT SzBs = {}
+CONSTANT P2Pads = {}
+CONSTANT FlagDefect = FALSE
 CONSTANT WrapDefect = TRUE
 CONSTANT FullW = 0
 INIT Init
